@@ -172,6 +172,13 @@ func ext4PrefixScenarios(cfg fatCfg, oracle string, depth int) []*fatScen {
 	lfr := []fsOp{W(long(90), "0", "c"), W(long(91), "0", "c+1"), W(long(92), "0", "1"), W(long(93), "0", "c"), W(long(94), "0", "c"), {Kind: "mkdir", Path: "frag/sub-" + strings.Repeat("d", 180)},
 		{Kind: "remove", Path: long(3)}, W(long(0), "eof", "c+1"), {Kind: "reopen"}}
 	out = append(out, &fatScen{Name: "fragdir", Cfg: cfg, Prefix: pf, Letters: lfr, Depth: depth + 1, Oracle: oracle})
+	// fragfree: free space is fragmented into runs of a few blocks, so that growing writes need several extents at once
+	// and allocation gathers several free runs of one group (the allocator's slow path)
+	hole := "6c"
+	lff := []fsOp{{Kind: "append", Path: "q0000", Len: "13c"}, W("new-file.bin", "0", "13c+1"), W("q0002", "past", "20c"), {Kind: "append", Path: "q0004", Len: "7c"}, W("small.bin", "0", "c+1"),
+		{Kind: "mkdir", Path: "newdir"}, {Kind: "symlink", Path: "slow-link", Path2: strings.Repeat("t", 90)}, {Kind: "remove", Path: "q0000"}, {Kind: "remove", Path: "q0002"},
+		{Kind: "readpartial", Path: "q0000"}, {Kind: "reopen"}}
+	out = append(out, &fatScen{Name: "fragfree", Cfg: cfg, Prefix: []fsOp{{Kind: "fragfill", Path: "q", Len: hole}}, Letters: lff, Depth: depth, Oracle: oracle})
 	// enospc: fill the volume
 	lfill := []fsOp{W("F1", "0", "p40"), W("F1", "0", "p70"), W("F2", "0", "p40"), W("F2", "0", "p70"), {Kind: "remove", Path: "F1"}, {Kind: "remove", Path: "F2"}, {Kind: "mkdir", Path: "DIR"}, {Kind: "create", Path: "DIR/x"}, {Kind: "reopen"}}
 	out = append(out, &fatScen{Name: "enospc", Cfg: cfg, Letters: lfill, Depth: depth, Oracle: oracle})
